@@ -167,6 +167,9 @@ impl EventLoop {
                 // a publish parked on a packet-id collision waits for an ack of the
                 // old session; nobody owns that id any more
                 self.state.collision = None;
+                // nor does the retransmission order of the new session depend on what
+                // the old one had acknowledged last
+                self.state.last_puback = 0;
             }
             self.network = Some(network);
 
